@@ -183,6 +183,8 @@ func errClass(err error) string {
 		return "closed"
 	case err == gocql.ErrNoConnections:
 		return "noconn"
+	case err == gocql.ErrUnknownRetryType:
+		return "unknownrt"
 	}
 	return "other:" + strings.ReplaceAll(err.Error(), " ", "_")
 }
